@@ -110,4 +110,16 @@ macro_rules
           (cases $p:ident <;> cases hcs' : Core.cs $d <;> cases hss' : Core.ss $d <;>
             simp_all [adv, srvStep, pAtt, pFine, isS1] <;> (first | done | grind))))))
 
+syntax "j_tree3" ident ident : tactic
+macro_rules
+  | `(tactic| j_tree3 $d $p) => `(tactic|
+      ((try simp only [resume, handlePE, peAfter, killedFire, killedSilent, sendResponse, startRequestStream, cbsErrFire,
+        connectFinish, flowDone, onReqHeaders, clientEvent, serverEvent, ↓reduceIte, Bool.false_eq_true, reduceCtorEq]) <;>
+       (repeat' split) <;>
+       (first | assumption | simp [J, JF, pOK, pAtt, pFine, isS1, imp, fire, fireC, mk, crash, W.pre, outIf, connectSends, killFinishC, peRetC,
+          List.foldl_append, *] at * <;>
+        (first | done |
+          (cases $p:ident <;> cases hcs' : Core.cs $d <;> cases hss' : Core.ss $d <;>
+            simp_all [adv, srvStep, pAtt, pFine, isS1] <;> (first | done | grind))))))
+
 end MitmVerif.C03
